@@ -29,6 +29,7 @@
 -/
 import ASV.Proofs.ResultsGuards
 import ASV.Proofs.ResultsModules
+import ASV.Proofs.ResultsFile
 import ASV.Props.C14
 namespace ASV.C11
 open ASV ASV.Results ASV.Results.Spec
@@ -505,10 +506,93 @@ theorem hmmDetection_adds_same_protoclusters (ctx : Ctx) (x : HmmDet) (hv : x.va
   refine ⟨_, HmmDet.fromJson_toJson ctx x hv, ?_⟩
   simp [RuleRes.protoclusters, RuleRes.detach, List.map_map, Function.comp_def]
 
+/-- gene annotations (`sec_met` domains, CORE / ADDITIONAL gene functions, in order) that
+    `annotate_cds_features` adds: the same after regeneration -/
+theorem hmmDetection_adds_same_annotations (ctx : Ctx) (x : HmmDet) (hv : x.valid ctx = true) :
+    ∃ y, HmmDet.fromJson ctx x.toJson = .reuse y ∧ y.rules.annotateAll = x.rules.annotateAll := by
+  refine ⟨_, HmmDet.fromJson_toJson ctx x hv, ?_⟩
+  simp [RuleRes.annotateAll, RuleRes.detach, List.flatMap_map]
+
+/-- the aSDomain / PFAM feature identifiers handed to the record are those of the originals -/
+theorem nrpsPks_adds_same_domain_ids (r : ModRules) (ctx : Ctx) (x : NrpsPks) (hv : x.valid r ctx = true) :
+    ∃ y, NrpsPks.fromJson r ctx x.toJson = .reuse y ∧ y.domainIds = x.domainIds :=
+  ⟨x, NrpsPks.fromJson_toJson r ctx x hv, rfl⟩
+
+theorem hmmer_adds_same_domain_ids (ctx : Ctx) (x : HmmerRes) (hv : x.valid ctx = true) :
+    ∃ y, HmmerRes.regenerate ctx x.evalue x.score x.toJson = .reuse y ∧ y.domainIds = x.domainIds :=
+  ⟨x, hmmer_regenerate_same_thresholds ctx x hv, rfl⟩
+
 theorem tta_adds_same_features (rid : String) (gc t : Dec) (all : List Loc) (hl : TTA.locsOk all = true) :
     ∃ y, TTA.fromJson t (TTA.detect rid gc t all).toJson = .reuse y
       ∧ y.features = (TTA.detect rid gc t all).features ∧ y.addToRecord rid = (TTA.detect rid gc t all).addToRecord rid :=
   ⟨_, tta_json_roundtrip rid gc t all hl, rfl, rfl⟩
+
+/-! ### Part 5 — the producing side of hmm_detection and the results file
+
+  What a run *stores* must be what the same run accepts back: `run_on_record` writes the rule names,
+  strictness and the multipliers of `get_ruleset(options)`; `regenerate_previous_results` checks
+  exactly these.  The gene-less early exit of `detect_protoclusters_and_signatures` is a separate
+  code path that has to store the rule set's multipliers as well. -/
+
+/-- results stored by a run under options `o` (its rule names, its rule set's multipliers) are
+    reused by a later run under the same options -/
+theorem hmmDetection_fresh_regenerates (ctx : Ctx) (o : HmmOpts) (x : HmmDet) (hv : x.valid ctx = true)
+    (hm : (x.rules.cutoffMult, x.rules.neighMult) = rulesetMultipliers o) (he : x.enabledTypes = o.ruleNames) :
+    HmmDet.regenerate ctx o x.toJson = .reuse { x with rules := x.rules.detach } := by
+  apply hmmDetection_regenerate_same_settings ctx o x hv
+  · rw [he]; exact setEq_refl _
+  · intro hf
+    simp only [rulesetMultipliers, hf, if_true, Prod.mk.injEq] at hm
+    exact hm
+
+/-- a record without genes: the early exit stores `ruleset.multipliers`, so for every admissible
+    option set (bacterial or fungal, any positive multipliers, any strictness, any rule subset) the
+    stored results are valid and regenerate to themselves under the same options -/
+theorem hmmDetection_no_genes_regenerates (ctx : Ctx) (o : HmmOpts) (tool : String) (ho : o.ok = true) :
+    HmmDet.regenerate ctx o (HmmDet.runNoGenes ctx o tool).toJson = .reuse (HmmDet.runNoGenes ctx o tool) := by
+  have hp := rulesetMultipliers_pos o ho
+  have hv : (HmmDet.runNoGenes ctx o tool).valid ctx = true := by
+    simp only [HmmOpts.ok, Bool.and_eq_true] at ho
+    simp [HmmDet.valid, HmmDet.runNoGenes, HmmDet.runOnRecord, RuleRes.noGenes, RuleRes.valid, hp.1, hp.2]
+    simpa using ho.1.1
+  have h := hmmDetection_fresh_regenerates ctx o (HmmDet.runNoGenes ctx o tool) hv rfl rfl
+  simpa [HmmDet.runNoGenes, HmmDet.runOnRecord, RuleRes.noGenes, RuleRes.detach] using h
+
+/-- … and their JSON states the settings they were produced under (spec `hmmDetSavedUnder`) -/
+theorem hmmDetection_no_genes_states_its_settings (ctx : Ctx) (o : HmmOpts) (tool : String) :
+    hmmDetSavedUnder o (HmmDet.runNoGenes ctx o tool).toJson = true := by
+  cases hf : o.fungi <;>
+    simp [hmmDetSavedUnder, HmmDet.runNoGenes, HmmDet.runOnRecord, RuleRes.noGenes, rulesetMultipliers,
+      HmmDet.toJson, RuleRes.toJson, strsField, strField, numField, field, lookup, jStrs, strsOf_map_str, hf]
+
+/-- the results file: what `to_json` writes is read back by `from_file` (timings are not kept) -/
+theorem resultsFile_json_roundtrip (f : ResultsFile) (hv : f.valid = true) :
+    ResultsFile.fromJson f.toJson = .reuse { f with timings := .obj [] } :=
+  ResultsFile.fromJson_toJson f hv
+
+/-- every module's stored JSON comes back verbatim, per record, in order -/
+theorem resultsFile_modules_verbatim (f : ResultsFile) (hv : f.valid = true) :
+    ∃ g, ResultsFile.fromJson f.toJson = .reuse g ∧ g.records.map (·.modules) = f.records.map (·.modules)
+      ∧ g.taxon = f.taxon ∧ ResultsFile.readDataTaxon "any option" g = f.taxon :=
+  ⟨_, ResultsFile.fromJson_toJson f hv, rfl, rfl, rfl⟩
+
+/-- a file is only read when its own schema number is 1–4 (or absent) -/
+theorem resultsFile_reuse_only_compatible_schema (j : J) (f : ResultsFile)
+    (h : ResultsFile.fromJson j = .reuse f) : fileMayReuse j = true :=
+  ResultsFile.fromJson_inv h
+
+/-- any other schema number under the key "schema" is refused, whatever else the file holds
+    (in particular whatever a key "schema_version" says) -/
+theorem resultsFile_schema_guard (kv : List (String × J)) (n : Int)
+    (hs : lookup "schema" kv = some (.int n)) (hn : n < 1 ∨ 4 < n) :
+    ResultsFile.fromJson (.obj kv) = .refuse .value := by
+  have : ResultsFile.schemaAccepted (lookup "schema" kv) = false := by
+    rw [hs]
+    simp only [ResultsFile.schemaAccepted, ResultsFile.schemaVersion, ResultsFile.compatibleSchemas,
+      Bool.or_eq_false_iff, beq_eq_false_iff_ne, ne_eq, List.contains_eq_mem, List.mem_cons,
+      List.not_mem_nil, or_false, decide_eq_false_iff_not]
+    omega
+  simp [ResultsFile.fromJson, this]
 
 /-! ### non-vacuity: the invariants hold on non-trivial concrete objects -/
 
@@ -571,5 +655,26 @@ example : TTA.fromJson ⟨5, -1⟩ (TTA.detect "r" ⟨6, -1⟩ ⟨65, -2⟩ exCo
 example : TTA.fromJson ⟨7, -1⟩ (TTA.detect "r" ⟨6, -1⟩ ⟨5, -1⟩ exCodons).toJson
     = .reuse ⟨"r", ⟨6, -1⟩, ⟨7, -1⟩, []⟩ := by
   rw [tta_regenerate_sound _ _ _ _ _ (by decide)]; decide +kernel
+
+-- gene-less record of a fungal run (neighbourhood multiplier 1.5): stored, then regenerated
+def exFungal : HmmOpts := ⟨"relaxed", ["NRPS", "T1PKS"], true, ⟨1, 0⟩, ⟨15, -1⟩⟩
+example : exFungal.ok = true := by decide +kernel
+example : HmmDet.regenerate exCtx exFungal (HmmDet.runNoGenes exCtx exFungal "rule-based-clusters").toJson
+    = .reuse (HmmDet.runNoGenes exCtx exFungal "rule-based-clusters") :=
+  hmmDetection_no_genes_regenerates exCtx exFungal _ (by decide +kernel)
+-- had the early exit stored the default multipliers instead, the same run would refuse its own results
+example : HmmDet.regenerate exCtx exFungal
+    (HmmDet.runOnRecord exCtx exFungal (RuleRes.noGenes "rule-based-clusters" (Dec.one, Dec.one))).toJson
+    = .refuse .runtime := by decide +kernel
+
+def exFile : ResultsFile := ⟨"8.0.0", "input.gbk",
+  [⟨[("id", .str "rec1"), ("gc_content", .num ⟨5, -1⟩)], [("antismash.modules.tta", (TTA.detect "rec1" ⟨6, -1⟩ ⟨5, -1⟩ exCodons).toJson)]⟩],
+  .obj [], "fungi"⟩
+example : exFile.valid = true := by decide
+example : ResultsFile.fromJson exFile.toJson = .reuse exFile := resultsFile_json_roundtrip exFile (by decide)
+-- a file of a newer schema is refused even if it also carries "schema_version": 4
+example : ResultsFile.fromJson (.obj [("version", .str "9"), ("input_file", .str "x"), ("records", .arr []),
+    ("taxon", .str "bacteria"), ("schema_version", .int 4), ("schema", .int 5)]) = .refuse .value :=
+  resultsFile_schema_guard _ 5 (by rfl) (by decide)
 
 end ASV.C11
